@@ -28,6 +28,7 @@ func init() {
 
 func runC19(c *core.Ctx) {
 	c19AgentWait(c)
+	c19AgentClose(c)
 	c.Rule("C19.frame", "A1/A3: WriteMessage writes the uvarint of len(data) and then data, returning every write error; ReadMessage reads the uvarint, reads into b[read:] until read equals size adding what each Read returned, turns EOF inside a message into an error, and unmarshals exactly the size bytes")
 	c.Rule("C19.reset", "A3: ReadMessage decodes with proto.Unmarshal (which resets the message) or with UnmarshalOptions whose Merge is not set: merging into a reused message accumulates map and repeated fields of earlier messages")
 	c.Rule("C19.roles", "A7: reference role table for points and batches: each protocol field is written from the accessor of its role (writePoint, writeBeginBatch, writeBatchPoint, writeEndBatch and their call sites) and each constructor position on the read side takes the protocol field of the same role (handleResponse)")
